@@ -537,6 +537,15 @@ pub fn byz_rewrite_poplar(bits: usize, ctx: &[u8], nonce: &[u8; 16], meas: &[N],
                     }
                 }
             }
+            ByzEdit::ZeroCorr { agg, level } => {
+                let a = *agg as usize % 2;
+                let l = (*level as usize).min(bits - 1);
+                let (off, len) = if l == bits - 1 { (48 + 16 * (bits - 1), 64) } else { (48 + 16 * l, 16) };
+                for b in inputs[a][off..off + len].iter_mut() {
+                    *b = 0;
+                }
+                notes.push(format!("A and B shares of aggregator {a} at level {l} set to zero"));
+            }
             ByzEdit::SeedCw { m } => {
                 let mut region = public[..inner_off].to_vec();
                 raw_edit(&mut region, m, false);
